@@ -1,4 +1,4 @@
-import GB.C03.Proofs
+import GB.C03.ProofsBuild
 /-
   C03 — property theorems. Theorems only; helper lemmas live in Proofs*.lean.
   `Tmpl` is the parsed template (`gwbased.Parse`, property C20), `Table` the routing table as a list of
@@ -91,9 +91,110 @@ theorem C03_error_codes {ι : Type} (tbl : Table ι) (hwf : ∀ e ∈ tbl, WF e.
         · exact absurd rfl (h p)
         · cases hq; exact absurd (hw s hs) hns
 
+/-- Decoded exactly once, end to end: for an origin-form request target as `net/http` parses it
+    (`url.ParseRequestURI`: Path = decoded, RawPath only when the default encoding differs), `RouteHTTP` routes
+    on the target's own path text — so the captures are `decodeOnce` of the raw segments of the request line
+    (`PathMatches`), never of something already decoded. -/
+theorem C03_decode_once {ι : Type} (tbl : Table ι) (hwf : ∀ e ∈ tbl, WF e.2.2) (m raw : Bytes) (u : Url)
+    (hs : ∃ r, raw = 47 :: r) (hp : parseRequestURI raw = some (some u)) (i : ι) (b : Captures) :
+    routeHTTP (routesOf tbl) m u = .found i b ↔
+      ∃ p, beforeQuery raw = 47 :: p ∧ FirstMatch tbl m (splitSlash p) i b := by
+  unfold routeHTTP
+  rw [pathChoice_parseRequestURI hs hp]
+  obtain ⟨r, rfl⟩ := hs
+  rw [beforeQuery_slash, C03_route_iff tbl hwf]
+  constructor
+  · intro h; exact ⟨_, rfl, h⟩
+  · rintro ⟨p, hp', h⟩; cases hp'; exact h
+
+/-- Hand-built URLs as the repo's tests use them (`url.URL{RawPath: x}`) are routed on `x` itself. -/
+theorem C03_rawpath_first (x path : Bytes) (hx : x ≠ []) : pathChoice ⟨path, x⟩ = x := by
+  simp [pathChoice, hx]
+
+/-- `buildPatternRoutes`: the AST-level routes of the built table are the routes of the abstract table
+    `buildTable mkEntry` (bindings in description order, templates `Parse`/`NewPattern` reject skipped). -/
+theorem C03_build_table (ts : List TargetD) : buildTable mkRouteA ts = routesOf (buildTable mkEntry ts) :=
+  buildTable_routesOf ts
+
+/-- every declared binding whose pattern can be built is in the table under its own HTTP method,
+    and a method without bindings is in the table with the default binding `POST <RPCName>`. -/
+theorem C03_build_bindings (ts : List TargetD) {T : TargetD} {S : ServiceD} {M : MethodD} {ti si mi : Nat}
+    (hT : ts[ti]? = some T) (hS : T.services[si]? = some S) (hM : S.methods[mi]? = some M) :
+    (∀ bi B t, M.bindings[bi]? = some B → B.pattern = some t → deepCount t.segs ≤ 1 →
+      (⟨ti, si, mi, some bi⟩, B.httpMethod, t) ∈ buildTable mkEntry ts) ∧
+    (∀ t, M.bindings = [] → M.dflt = some t → deepCount t.segs ≤ 1 →
+      (⟨ti, si, mi, none⟩, post, t) ∈ buildTable mkEntry ts) :=
+  ⟨fun _ _ _ hB hp h1 => binding_mem_table ts hT hS hM hB hp h1,
+   fun _ hb hd h1 => default_mem_table ts hT hS hM hb hd h1⟩
+
+/-- Default binding reachability: a method without bindings whose RPC name is `/svc/Method` (slash-free parts)
+    is reachable at `POST /svc/Method`: the request is routed (never NotFound), to the first POST binding in table
+    order matching that path — which is the default binding itself unless an earlier binding also matches it. -/
+theorem C03_default (ts : List TargetD) (hwf : ∀ e ∈ buildTable mkEntry ts, WF e.2.2)
+    {T : TargetD} {S : ServiceD} {M : MethodD} {ti si mi : Nat}
+    (hT : ts[ti]? = some T) (hS : T.services[si]? = some S) (hM : S.methods[mi]? = some M)
+    (hb : M.bindings = []) (svc meth : Bytes)
+    (hd : M.dflt = some ⟨[.plain (.lit svc), .plain (.lit meth)], []⟩)
+    (h1 : svc ≠ eof) (h2 : meth ≠ eof) (h3 : ∀ c ∈ svc, c ≠ 47) (h4 : ∀ c ∈ meth, c ≠ 47) :
+    ∃ i b, routePath (routesOf (buildTable mkEntry ts)) post (47 :: (svc ++ 47 :: meth)) = .found i b ∧
+      FirstMatch (buildTable mkEntry ts) post [svc, meth] i b ∧
+      ((∀ e ∈ buildTable mkEntry ts, e.2.1 = post → (∃ b', PathMatches e.2.2 [svc, meth] b') → e.1 = ⟨ti, si, mi, none⟩) →
+        i = ⟨ti, si, mi, none⟩) := by
+  have hmem := default_mem_table ts hT hS hM hb hd (by simp [deepCount, atomsOf, Seg.atoms, VSeg.isDeep])
+  have hsplit : splitSlash (svc ++ 47 :: meth) = [svc, meth] := by
+    rw [splitSlash_append _ h3, splitSlash_noslash h4]
+  obtain ⟨i, b, hf⟩ := exists_firstMatch (buildTable mkEntry ts) post [svc, meth]
+    ⟨_, hmem, rfl, [], default_pathMatches h1 h2⟩
+  refine ⟨i, b, ?_, hf, ?_⟩
+  · rw [C03_route_iff _ hwf, hsplit]; exact hf
+  · intro huniq
+    obtain ⟨pre, t, post', htbl, hm, _⟩ := hf
+    exact huniq (i, post, t) (by rw [htbl]; simp) rfl ⟨b, hm⟩
+
+/-- What fix D3 removed: with bindings `[GET /a/*:get, GET /a/*]` the path `/a/:get` was answered NotFound by the
+    first route's `verbIdx == 0` exit although the second binding matches it (`*` = `:get`). -/
+theorem C03_prefix_verb_abort :
+    let tbl : Table Nat := [(0, [71, 69, 84], ⟨[.plain (.lit [97]), .plain .star], [103, 101, 116]⟩),
+                            (1, [71, 69, 84], ⟨[.plain (.lit [97]), .plain .star], []⟩)]
+    routeHTTPPreFix (routesOf tbl) [71, 69, 84] ⟨[], [47, 97, 47, 58, 103, 101, 116]⟩ = .error .notFound ∧
+    routeHTTP (routesOf tbl) [71, 69, 84] ⟨[], [47, 97, 47, 58, 103, 101, 116]⟩ = .found 1 [] := by
+  decide
+
 /-- What fix D2 removed: `/v/%2541` parses to Path `/v/%41`, RawPath empty; routing on Path decodes again. -/
 theorem C03_prefix_double_decode :
     setPath [47, 118, 47, 37, 50, 53, 52, 49] = some ⟨[47, 118, 47, 37, 52, 49], []⟩ ∧
     pathChoicePreFix ⟨[47, 118, 47, 37, 52, 49], []⟩ = [47, 118, 47, 37, 52, 49] ∧
     pathChoice ⟨[47, 118, 47, 37, 52, 49], []⟩ = [47, 118, 47, 37, 50, 53, 52, 49] := by
   decide
+
+/-- and what the double decoding did to the captured value: `/v/%2541` bound `x = "A"` instead of `x = "%41"`. -/
+theorem C03_prefix_double_decode_value :
+    let tbl : Table Nat := [(0, [71, 69, 84], ⟨[.plain (.lit [118]), .var [120] [.star]], []⟩)]
+    routeHTTPPreFix (routesOf tbl) [71, 69, 84] ⟨[47, 118, 47, 37, 52, 49], []⟩ = .found 0 [([120], [65])] ∧
+    routeHTTP (routesOf tbl) [71, 69, 84] ⟨[47, 118, 47, 37, 52, 49], []⟩ = .found 0 [([120], [37, 52, 49])] := by
+  decide
+
+/-! Non-vacuity: a three-binding table, a request line with `%2F`, `%25` and a verb. -/
+section
+def exTbl : Table Nat :=
+  [ (0, [71, 69, 84], ⟨[.plain (.lit [97]), .plain .star], [103]⟩),                       -- GET /a/*:g
+    (1, [71, 69, 84], ⟨[.plain (.lit [97]), .var [120] [.star], .var [121] [.deep]], [103]⟩), -- GET /a/{x}/{y=**}:g
+    (2, [71, 69, 84], ⟨[.plain (.lit [97]), .var [122] [.deep]], []⟩) ]                    -- GET /a/{z=**}
+
+example : ∀ e ∈ exTbl, WF e.2.2 := by
+  intro e he
+  simp only [exTbl, List.mem_cons, List.not_mem_nil, or_false] at he
+  rcases he with rfl | rfl | rfl <;>
+    exact ⟨by decide, by
+      intro p hp
+      simp only [atomsOf, List.flatMap_cons, List.flatMap_nil, Seg.atoms, List.cons_append, List.nil_append,
+        List.mem_cons, List.not_mem_nil, or_false] at hp
+      rcases hp with rfl | rfl | rfl <;> simp [VSeg.litsOk, wellEscaped_iff, litText, eof, escapesOk], by
+      simp [wellEscaped_iff, escapesOk]⟩
+
+/-- `GET /a/b%2Fc/d%2Fe%2541:g` — binding 1 wins (binding 0 has too few segments); `x` is decoded fully
+    (`b/c`), `y` keeps the reserved `/` encoded and decodes `%25` once (`d%2Fe%41`). -/
+example : routePath (routesOf exTbl) [71, 69, 84]
+      [47, 97, 47, 98, 37, 50, 70, 99, 47, 100, 37, 50, 70, 101, 37, 50, 53, 52, 49, 58, 103] =
+    .found 1 [([120], [98, 47, 99]), ([121], [100, 37, 50, 70, 101, 37, 52, 49])] := by decide
+end
